@@ -24,6 +24,9 @@ func isNew[T any](x T) bool     { return true }
 // visited(m, k): the range loop over map m has already produced key k.
 func visited[K comparable, V any](m map[K]V, k K) bool { return true }
 
+// iterStart(e): value of e in the heap as it was when the current loop iteration began (ghost, loop clauses only).
+func iterStart[T any](x T) T { return x }
+
 // recvs(ch): number of receive operations executed on channel ch so far (ghost).
 func recvs[T any](ch chan T) int { return 0 }
 
